@@ -164,8 +164,23 @@ RShapes ==
   \cup {<<"foldr", it, J("a"), "g">> : it \in {x \in RReps : x[2] = J("a")}}
   \cup {<<"withctx", VI(n), <<"collect", <<"cfgrep", <<"rep", a, 0, Inf>>>>, "vec">>>> : n \in 0..2, a \in RItems}
 RepTemplates == RShapes \cup {<<"then", sh, RestCap>> : sh \in RShapes}
-Templates(fam) == CASE fam = "rec" -> RecTemplates [] fam = "lrec" -> LRecTemplates [] fam = "repT" -> RepTemplates
-TemplateFams == {"rec", "lrec", "repT"}
+(* Pratt (C09): operator tables over symbols + - * ! ~ ^ with powers 0..3, same symbol allowed *)
+(* as prefix and infix; atoms a / b                                                              *)
+PAtom == <<"oneof", <<"a", "b">>>>
+PTables ==
+  { << <<"infixl", 1, "+">>, <<"infixl", 2, "*">> >>,
+    << <<"infixl", 1, "+">>, <<"infixr", 1, "^">> >>,                    \* equal powers, opposite associativity
+    << <<"infixr", 2, "^">>, <<"infixl", 1, "+">>, <<"prefix", 3, "-">> >>,
+    << <<"prefix", 1, "-">>, <<"infixl", 2, "-">>, <<"postfix", 3, "!">> >>,   \* same symbol prefix and infix
+    << <<"prefix", 2, "-">>, <<"postfix", 1, "!">>, <<"infixl", 1, "+">> >>,
+    << <<"postfix", 2, "!">>, <<"prefix", 3, "~">>, <<"infixr", 0, "+">>, <<"infixl", 0, "*">> >>,
+    << <<"infixl", 2, "+">>, <<"infixl", 1, "+">> >>,                    \* the same symbol twice: declaration order decides
+    << <<"infixl", 0, "+">>, <<"infixl", 1, "*">>, <<"infixr", 2, "^">>, <<"prefix", 3, "-">>, <<"postfix", 3, "!">>, <<"infixl", 1, "-">> >> }
+PrattTemplates ==
+  {<<"pratt", PAtom, t, k>> : t \in PTables, k \in {"vec", "tuple"}}
+  \cup {<<"then", <<"pratt", PAtom, t, "vec">>, RestCap>> : t \in PTables}
+Templates(fam) == CASE fam = "pratt" -> PrattTemplates [] fam = "rec" -> RecTemplates [] fam = "lrec" -> LRecTemplates [] fam = "repT" -> RepTemplates
+TemplateFams == {"rec", "lrec", "repT", "pratt"}
 
 Grammars == IF Fam \in TemplateFams THEN Templates(Fam)
             ELSE {g \in UNION {GSz(Fam, n) : n \in 1..MaxSize} : WF(g)}
@@ -201,9 +216,10 @@ EmAgree(es, dem) == /\ Len(es) = Len(dem)
 (* reference: same acceptance, same end position, same value, and the     *)
 (* secondary errors added since its entry are the reference's emissions.  *)
 RetRefines ==
-  (ret.set /\ ~st.done /\ KfClean /\ ret.fr.role = "go") =>
+  (ret.set /\ ~st.done /\ KfClean /\ ret.fr.role \in {"go", "pratt"}) =>
     LET fr == ret.fr
-        d == D(fr.g, X, fr.cp.cur, fr.ctx, EnvBodies(fr.env))
+        d == IF Op(fr.g) = "pratt" THEN DPratt(fr.g, X, fr.cp.cur, fr.ctx, EnvBodies(fr.env), fr.n)
+             ELSE D(fr.g, X, fr.cp.cur, fr.ctx, EnvBodies(fr.env))
     IN /\ ret.ok = d.ok
        /\ ret.ok => /\ cur = d.end
                     /\ fr.mode = "E" => ret.val = d.val
@@ -234,7 +250,7 @@ OffTok(o) == IF \E i \in 0..(NTok - 1) : TokStart(i) = o
              THEN Toks[(CHOOSE i \in 0..(NTok - 1) : TokStart(i) = o) + 1] ELSE ""
 FurthestFailure ==
   (st.done /\ ~st.panicked /\ ~result.ok /\ KfClean /\ Ety # "empty"
-   /\ ~HasOp(G, {"not", "recover", "label", "maperr", "nested"})) =>
+   /\ ~HasOp(G, {"not", "recover", "label", "maperr", "nested", "pratt"})) =>
     LET d == DenTop
         e == result.errs[Len(result.errs)]
     IN /\ 0 <= e.s /\ e.s <= e.e /\ e.e <= TotalLen
@@ -268,6 +284,21 @@ Boundaries == IF Gapped THEN 0..(3 * NTok) ELSE {Case.offs[i] : i \in DOMAIN Cas
 SpansWellFormed ==
   (st.done /\ result.ok /\ KfClean) =>
      \A sp \in SpansIn(result.out) : sp[1] <= sp[2] /\ sp[1] \in Boundaries /\ sp[2] \in Boundaries
+
+(* C09: flattening the tree a Pratt parser built yields the consumed tokens in order *)
+RECURSIVE Flat(_)
+RECURSIVE FlatSeq(_)
+FlatSeq(s) == IF s = <<>> THEN <<>> ELSE Flat(Head(s)) \o FlatSeq(Tail(s))
+Flat(v) ==
+  CASE v[1] = "T" -> <<v[2]>>
+    [] v[1] = "S" -> v[2]
+    [] v[1] = "W" -> Flat(v[2])
+    [] v[1] = "F" -> Flat(v[3]) \o Flat(v[4])
+    [] v[1] = "P" -> Flat(v[2]) \o Flat(v[3])
+    [] v[1] = "L" -> FlatSeq(v[2])
+    [] OTHER -> <<>>
+PrattFlatten ==
+  (st.done /\ result.ok /\ TopMode = "E" /\ Fam = "pratt") => Flat(result.out) = Toks
 
 (* C20: no "can't fail" unwrap is ever hit, and the machine makes progress *)
 NoPanic == ~st.panicked
